@@ -54,6 +54,8 @@ def import_stmt(form: str, src: str, names: List[str], own: str, rel_src: Option
         return f"from {target} import {', '.join(names)}\n"
     if form == "star":
         return f"from {target} import *\n"
+    if form == "fromstar":
+        return f"from {target} import {', '.join(names)}\nfrom extra import *\n"
     if form == "module":
         return f"import {src}\n"
     if form == "redef":
@@ -89,7 +91,7 @@ def build_tree(rec: dict) -> Dict[str, str]:
         files["pkg/impl.py"], files["pkg/lib.py"], files["pkg/__init__.py"] = base, mid, ""
     else:
         files["pkg/impl.py"], files["pkg/__init__.py"] = base, mid
-    if c["variant"] == "twostars":
+    if c["variant"] == "twostars" or c["mid"] == "fromstar":
         files["extra.py"] = 'def beta():\n    return "beta@extra"\n\n\ndef zeta():\n    return "zeta@extra"\n'
     if c["top"] != "absent":
         wanted_mid = sorted(set(rec["midnames"]) & set(FUNCS))
@@ -381,7 +383,7 @@ def main(argv=None) -> int:
     rng = random.Random(seed())
     known = rep.known_entries()
     def cfg_for(pkgs, variants, clients):
-        return "\n".join(["CONSTANTS", '  BaseAlls = {"none", "alpha"}', '  MidForms = {"from", "alias", "star", "module", "redef", "swap"}',
+        return "\n".join(["CONSTANTS", '  BaseAlls = {"none", "alpha"}', '  MidForms = {"from", "alias", "star", "module", "redef", "swap", "fromstar"}',
                           '  TopForms = {"absent", "from", "alias", "star", "module", "redef", "swap"}',
                           f"  ClientForms = {clients}", f"  Variants = {variants}", f"  Pkgs = {pkgs}",
                           f"  MaxUses = {2 if t == 'quick' else 3}", "  MaxStd = 1", '  StdPlaces = {"top"}', "INIT Init", "NEXT Next",
@@ -399,14 +401,19 @@ def main(argv=None) -> int:
         if res.violated:
             raise MachineryError(f"Imports.tla: {res.violated} fails")
         (shadow if "shadow" in label else recs).extend(res.records)
-    recs = res.records
     if not recs:
         raise MachineryError("Imports: no cases")
     cap = 3500 if t == "quick" else 60000
     if len(recs) > cap:
         # the cases in which a star import has to provide a name the tool has its own guess for are all kept
+        # ... and those in which a later star import of the re-exporting module overrides an explicit import (flat tree, plain client)
+        over = [r for r in recs if r["case"]["mid"] == "fromstar" and "beta" in r["case"]["uses"] and r["case"]["pkg"] == "flat"
+                and r["case"]["variant"] == "plain" and r["case"]["ball"] == "none"]
+        over = over if len(over) <= cap // 8 else rng.sample(over, cap // 8)
         guess = [r for r in recs if "Path" in r["case"]["uses"] and "star" in (r["case"]["client"], r["case"]["mid"], r["case"]["top"])]
         guess = guess if len(guess) <= cap // 4 else rng.sample(guess, cap // 4)
+        guess = guess + [r for r in over if all(r is not g for g in guess)]
+        rep.coverage["override_cases_kept"] = len(over)
         chosen = {id(r) for r in guess}
         rest = [r for r in recs if id(r) not in chosen]
         recs = guess + rng.sample(rest, cap - len(guess))
